@@ -81,20 +81,35 @@ func coversIndex(fr *Frame, idx ssa.Value, blk *ssa.BasicBlock, n Aff, allowedEx
 		return false, "loop counter is not a plain symbol"
 	}
 	psym := pv.a.terms[0].s
-	if len(ph.Edges) != 2 {
-		return false, "loop header has more than two predecessors"
-	}
+	// any number of back edges (an `if` or `continue` in the body gives several), each of which
+	// must advance the counter by exactly 1, and the access must lie on every path to each latch
 	initOK, stepOK := false, false
+	nInit, nBack := 0, 0
 	for i, e := range ph.Edges {
 		ev, ok := fr.intVal(e)
 		if !ok || len(ev.conds) != 0 {
 			return false, "loop counter edge is not exact"
 		}
 		if isBackEdge(hdr.Preds[i], hdr) {
-			stepOK = ev.a.equal(pv.a.addc(1))
+			ok1 := ev.a.equal(pv.a.addc(1))
+			if nBack == 0 {
+				stepOK = ok1
+			} else {
+				stepOK = stepOK && ok1
+			}
+			nBack++
+			if len(ph.Edges) > 2 && !(ia.blk == hdr || ia.blk.Dominates(hdr.Preds[i])) {
+				return false, "the access is not on every path through the loop body"
+			}
 		} else {
 			first := j.subst(psym, ev.a)
-			initOK = first.isConst() && first.c == 0
+			ok1 := first.isConst() && first.c == 0
+			if nInit == 0 {
+				initOK = ok1
+			} else {
+				initOK = initOK && ok1
+			}
+			nInit++
 		}
 	}
 	if !initOK {
